@@ -311,6 +311,9 @@ func init() {
 			if fps < 2 {
 				return []string{fmt.Sprintf("only %d distinct interleaving fingerprints observed at the Yield points", fps)}
 			}
+			if total.Counters["hook_events/acquire"] == 0 {
+				return []string{"the Acquire hook produced no event: the pool-ownership monitor observed nothing"}
+			}
 			return nil
 		},
 		Stages: []*fw.Stage{
